@@ -25,6 +25,8 @@ pub fn canon_op(op: &Op) -> Op {
             files: files.clone(),
             order: (0..files.len()).collect(),
             via_hashmap: false,
+            dups: Vec::new(),
+            via_insert: false,
             main_path: main_path.clone(),
             opts: opts.clone(),
         },
